@@ -11,7 +11,7 @@ RULE = ('the root logger is configured as the daemon does without -v (level INFO
         'Secrets = configured PSKs, and every SKEYSEED, SK_d/ai/ar/ei/er/pi/pr, CHILD_SA key and Diffie-Hellman shared secret that the independent wire shadow derived '
         'or the DH taps saw (>= 8 octets). Histories: long successful histories over random configuration pairs (all exchange kinds, COOKIE / INVALID_KE retries), '
         'authentication failures from an independent impostor (wrong PSK, victim\'s PSK, method mismatch PSK<->RSA, wrong identity, bad signature), mismatching '
-        'configurations, configuration files that cannot be loaded (what pyikev2.py logs about them; PSKs that look like hexadecimal / base64 among them), refused proposals / selectors, kernel refusals (the error reply echoes the refused request as Linux does) injected at every netlink request of scripted histories, hostile cleartext and corrupted '
+        'configurations, the real start-up path (pyikev2.py run without -v on YAML files it must refuse: syntax errors on or near the line of a secret, invalid values), configuration dictionaries that cannot be loaded (what pyikev2.py logs about them; PSKs that look like hexadecimal / base64 among them), refused proposals / selectors, kernel refusals (the error reply echoes the refused request as Linux does) injected at every netlink request of scripted histories, hostile cleartext and corrupted '
         'datagrams, lossy random walks with timeouts. POSITIVE CONTROL: a slice of the same histories at DEBUG level must show the keys (the oracle can see them). '
         'distinct = (history family, record text template).')
 ASSUMPTIONS = ['secrets shorter than 8 octets are not searched for (collision risk)', 'log records are searched after formatting (record.getMessage())']
@@ -226,12 +226,59 @@ def fam_configuration(ck, sc, i):
     return secrets, {'family': 'configuration', 'conf': conf}, [{'type': 'log', 'msg': t} for t in texts]
 
 
-FAMILIES = [('success', fam_success), ('configuration', fam_configuration), ('auth-failure', fam_impostor), ('mismatch', fam_mismatch), ('kernel-refusal', fam_kernel_faults), ('hostile+lossy', fam_hostile)]
+def fam_configuration_file(ck, sc, i):
+    """The REAL start-up path: `pyikev2.py -c <file> -i 127.0.0.1` WITHOUT -v on a file the daemon must refuse (a YAML syntax error on or near a line that holds
+    a secret, or well-formed YAML with a value Configuration rejects). Everything the process writes is searched for the secrets of the file."""
+    import os
+    import subprocess
+    import sys
+    import tempfile
+    from vf import core
+    rng = ck.rng('conffile', i)
+    psk_a = rng.choice(['c0rrect-h0rse: battery-staple-%d', 'tab\there-%d', '%d: [unbalanced', 'p@ss {w0rd-%d', "it's-a-secret-%d", '"half-quoted-%d', '- dash-first-%d', '? question-%d', 'plain-secret-%d', '%d & anchor *alias']) % rng.randrange(10 ** 6)
+    psk_b = 'other-side-secret-%d' % rng.randrange(10 ** 6)
+    kind = ['unquoted-secret', 'bad-indentation-after-the-secret', 'tab-indentation', 'unterminated-quote-before-the-secret', 'duplicate-anchor', 'bad-value-elsewhere', 'unknown-algorithm',
+            'secret-line-truncated'][i % 8]
+    secret_line = f'    psk: {psk_a}'
+    if kind in ('bad-value-elsewhere', 'unknown-algorithm', 'bad-indentation-after-the-secret', 'tab-indentation', 'unterminated-quote-before-the-secret', 'duplicate-anchor'):
+        secret_line = f'    psk: "{psk_a.replace(chr(92), chr(92) * 2).replace(chr(34), chr(92) + chr(34)).replace(chr(9), " ")}"'
+        psk_a = psk_a.replace(chr(9), ' ')
+    lines = ['with-bob:', '  my_addr: 127.0.0.1', '  peer_addr: 127.0.0.2',
+             '  lifetime: %s' % ('900' if kind == 'unknown-algorithm' else 'soon'),      # (every file is unloadable: the daemon never gets as far as opening sockets)
+             '  encr: [%s]' % ('rot13' if kind == 'unknown-algorithm' else 'aes256'),
+             '  my_auth:', ('    id: "alice@openikev2' if kind == 'unterminated-quote-before-the-secret' else '    id: alice@openikev2'), secret_line,
+             ('      oops: deeper' if kind == 'bad-indentation-after-the-secret' else '\tdpd: 5' if kind == 'tab-indentation' else '  dpd: 30'),
+             '  peer_auth:', '    id: bob@openikev2', f'    psk: "{psk_b}"' + (' &a &a' if kind == 'duplicate-anchor' else ''), '  protect:', '    - ip_proto: tcp', '      mode: transport']
+    text = '\n'.join(lines) + '\n'
+    if kind == 'secret-line-truncated':
+        text = text[:text.index(secret_line) + len(secret_line) - 3] + '"\n'
+    with tempfile.NamedTemporaryFile('w', suffix='.yaml', delete=False, dir=os.environ.get('TMPDIR', None)) as f:
+        f.write(text)
+    try:
+        r = subprocess.run([sys.executable, 'pyikev2.py', '-c', f.name, '-i', '127.0.0.1'], cwd=core.REPO, stdout=subprocess.PIPE, stderr=subprocess.STDOUT, timeout=60, text=True)
+    except subprocess.TimeoutExpired as ex:
+        ck.count('configuration_file.did_not_exit')
+        r = subprocess.CompletedProcess([], -9, stdout=(ex.stdout.decode() if isinstance(ex.stdout, bytes) else (ex.stdout or '')))
+    finally:
+        os.unlink(f.name)
+    ck.count('configuration_file.started')
+    ck.seen('configuration_file.kinds', (kind, r.returncode))
+    out = r.stdout or ''
+    if r.returncode == 1 and ('[ERROR' in out):
+        ck.count('configuration_file.refused_with_an_error_record')
+    secrets = {psk_b.encode(): 'psk'}
+    for part in [psk_a] + [x for x in psk_a.replace(':', ' ').replace('{', ' ').replace('[', ' ').split() if len(x) >= 10]:
+        if len(part) >= 8:
+            secrets[part.encode()] = 'psk'
+    return secrets, {'family': 'configuration-file', 'kind': kind, 'file': text, 'exit': r.returncode}, [{'type': 'process-output', 'msg': ln} for ln in out.splitlines()]
+
+
+FAMILIES = [('success', fam_success), ('configuration', fam_configuration), ('configuration-file', fam_configuration_file), ('auth-failure', fam_impostor), ('mismatch', fam_mismatch), ('kernel-refusal', fam_kernel_faults), ('hostile+lossy', fam_hostile)]
 
 
 def run(ck):
     thorough = ck.thorough()
-    per = {'success': 40, 'auth-failure': 120, 'mismatch': 40, 'kernel-refusal': 120, 'hostile+lossy': 60, 'configuration': 400}
+    per = {'success': 40, 'auth-failure': 120, 'mismatch': 40, 'kernel-refusal': 120, 'hostile+lossy': 60, 'configuration': 400, 'configuration-file': 48}
     if thorough:
         per = {k: v * 60 for k, v in per.items()}
     n = 0
@@ -269,6 +316,7 @@ def verdict(ck):
     ck.floor('DEBUG controls that show keys', c['control.debug_histories_showing_keys'], 10)
     for f, _fn in FAMILIES:
         ck.floor(f'histories of family {f}', c[f'histories.{f}'], 20)
+    ck.floor('daemon start-ups on a file that must be refused, ended with an ERROR record', c['configuration_file.refused_with_an_error_record'], 30)
     ck.floor('configurations rejected with secrets in the file', c['configuration.rejected'], 100)
     ck.floor('distinct record templates seen', len(ck.sets['scan.templates']), 40)
     return None
